@@ -26,7 +26,10 @@ RULE = ("all variants run against a sanitizer build of the current C sources, ob
         "extended, spliced, coalesced, forged with long tokens / CIDs / lying length fields). variant config: sweep of "
         "max_datagram_size (1200..1600, 9000, 65527) and connection_id_length 4..20 on both sides with traffic that "
         "fills datagrams. variant buffer: seeded Buffer method sequences (all push/pull/seek/data_slice methods, "
-        "arguments incl. negative, zero, capacity+-1, 2^62..2^64) on small capacities against a bytearray model. "
+        "arguments incl. negative, zero, capacity+-1, 2^62..2^64, construction from capacity and data together) on "
+        "small capacities against a bytearray model. variant crypto: direct CryptoPair.encrypt_packet / decrypt_packet "
+        "calls over boundary (header length, packet-number length, plaintext length) and (packet length, "
+        "protected-field offset) values for the three cipher suites. "
         "Oracle: no sanitizer report, no contract breach, every rejection is a Python exception after which the helper "
         "still round-trips a known vector. non-trivial = C helpers were called with hostile / boundary input; distinct = "
         "hash of schedule + configuration (+ op sequence for buffer)")
@@ -39,8 +42,8 @@ ASSUMPTIONS = ASSUMPTIONS_TRANSPORT + [
 COMPONENTS = dict(COMPONENTS_TRANSPORT)
 COMPONENTS["real"] = COMPONENTS["real"] + ["_crypto.c and _buffer.c compiled with clang -fsanitize=address,undefined"]
 PLAN = {
-    "quick": {"budget_s": 75, "max_runs": 10 ** 7, "variants": ["network", "network", "config", "buffer"]},
-    "thorough": {"budget_s": 1200, "max_runs": 10 ** 9, "variants": ["network", "network", "config", "buffer"]},
+    "quick": {"budget_s": 75, "max_runs": 10 ** 7, "variants": ["network", "network", "config", "buffer", "crypto"]},
+    "thorough": {"budget_s": 1200, "max_runs": 10 ** 9, "variants": ["network", "network", "config", "buffer", "crypto"]},
 }
 
 _installed = {}
@@ -244,10 +247,38 @@ def run_buffer(seed, replay):
         out.signature = stable_hash(("ctor", cap))
         out.sample = {"seed": seed, "variant": "buffer", "capacity": cap, "ops": [("Buffer()", "rejected")]}
         return out
-    if c.choose(3) == 0:
+    k0 = c.choose(4)
+    if k0 == 0:
         init = bytes((i * 37 + 1) & 0xFF for i in range(cap))
         buf = Buffer(data=init)
         model = bytearray(init)
+    elif k0 == 3:
+        # both arguments: whatever capacity results, the initial contents must fit in it
+        init = bytes((i * 37 + 1) & 0xFF for i in range((0, 1, 5, 8, 9, 40, 300)[c.choose(7)]))
+        try:
+            buf = Buffer(capacity=cap, data=init)
+        except (ValueError, MemoryError, OverflowError, TypeError):
+            buf = None
+        if buf is None:
+            buf = Buffer(data=init)
+        if buf.capacity < len(init):
+            out.violation = violation_dict(Violation(
+                "c04.buffer", "initial-data-larger-than-capacity",
+                "Buffer(capacity=%d, data=<%d bytes>) has capacity %d: the initial contents were copied into a "
+                "smaller allocation" % (cap, len(init), buf.capacity)))
+            out.summary = {"reason": "violation", "steps": 1, "sim_time": 0.0, "fired": {}, "probes": {},
+                           "extra": {"buffer_ops": 1}, "digest": stable_hash(("ctor2", cap, len(init))),
+                           "states": [repr((cap, len(init)))]}
+            out.choices = ch.dump()
+            out.nontrivial = True
+            out.signature = stable_hash(("ctor2", cap, len(init)))
+            out.sample = {"seed": seed, "variant": "buffer", "capacity": cap, "ops": [("Buffer(capacity,data)", "bad")]}
+            return out
+        cap = buf.capacity
+        model = bytearray(buf.data_slice(0, cap))
+        if bytes(model[:len(init)]) != init:
+            out.violation = violation_dict(Violation("c04.buffer", "initial-data-wrong",
+                                                     "Buffer(capacity, data) does not start with the data"))
     else:
         buf = Buffer(capacity=cap)
         # a fresh buffer's bytes are unspecified (uninitialised, not out of bounds): start the model
@@ -379,6 +410,92 @@ def run_buffer(seed, replay):
     return out
 
 
+def run_crypto(seed, replay):
+    """Direct sealing / opening walk: CryptoPair.encrypt_packet over (header length, packet-number length,
+    plaintext length) and decrypt_packet over (packet length, protected-field offset), boundary values of every
+    scratch-buffer and sample constant, all three cipher suites; contracts + sanitizer + shim observe."""
+    bootstrap.load()
+    from aioquic.quic import crypto as qcrypto
+    from aioquic.quic.crypto import CryptoError, CryptoPair
+    from aioquic.tls import CipherSuite
+
+    ch = Chooser(seed, replay)
+    c = ch.stream("crypto")
+    out = Outcome(seed)
+    K = constants()
+    MAX = K["PACKET_LENGTH_MAX"] or 1500
+    suite = (CipherSuite.AES_128_GCM_SHA256, CipherSuite.AES_256_GCM_SHA384, CipherSuite.CHACHA20_POLY1305_SHA256)[
+        c.choose(3)]
+    version = (1, 0x6B3343CF)[c.choose(2)]
+    secret = bytes((i * 13 + 5) & 0xFF for i in range(48 if suite == CipherSuite.AES_256_GCM_SHA384 else 32))
+    tx, rx = CryptoPair(), CryptoPair()
+    tx.send.setup(cipher_suite=suite, secret=secret, version=version)
+    rx.recv.setup(cipher_suite=suite, secret=secret, version=version)
+    ops = []
+    probes = {}
+    HL = (1, 2, 3, 5, 7, 9, 19, 20, 50, 300, MAX - 40, MAX - 21, MAX - 20, MAX - 17, MAX - 16, MAX - 1, MAX, MAX + 1,
+          MAX + 200)
+    PL = (0, 1, 2, 3, 4, 5, 15, 16, 17, 19, 20, 21, 100, 1162, 1200, MAX - 60, MAX - 36, MAX - 35, MAX - 17, MAX - 16,
+          MAX - 15, MAX, MAX + 1, 2 * MAX, 20000, 65535)
+    PNS = (0, 1, 255, 256, 65535, (1 << 32) - 1, 1 << 32, (1 << 62) - 1)
+
+    def known_vector():
+        hdr = bytes([0x41]) + bytes(8) + bytes([0, 7])
+        pkt = tx.encrypt_packet(hdr, b"\x01" * 30, 7)
+        h, pl, pn = rx.decrypt_packet(pkt, 9, 0)
+        if (h, pl, pn) != (hdr, b"\x01" * 30, 7):
+            raise Violation("c04.crypto", "helper-unusable-after-rejection",
+                            "a plain packet no longer round-trips after %r" % (ops[-1:],))
+
+    try:
+        for _ in range(3 + c.choose(24)):
+            if c.choose(2) == 0:
+                pnl = 1 + c.choose(4)
+                hl = HL[c.choose(len(HL))] + (c.choose(3) - 1)
+                pl = PL[c.choose(len(PL))]
+                if c.choose(4) == 0:  # aim at the exact capacity of the scratch buffer
+                    pl = max(MAX - 16 - hl + (c.choose(5) - 2), 0)
+                hl = max(hl, 1)
+                header = bytes([0x40 | (pnl - 1)]) + bytes((i * 3 + 1) & 0xFF for i in range(hl - 1))
+                payload = bytes((i * 5 + 2) & 0xFF for i in range(pl))
+                pn = PNS[c.choose(len(PNS))]
+                name = "seal(h=%d,pnl=%d,p=%d)" % (hl, pnl, pl)
+                try:
+                    pkt = tx.encrypt_packet(header, payload, pn)
+                    if len(pkt) != hl + pl + 16:
+                        raise Violation("c04.crypto", "sealed-length-wrong", "%s returned %d bytes" % (name, len(pkt)))
+                    ops.append((name, "ok"))
+                    probes["sealed"] = probes.get("sealed", 0) + 1
+                except CryptoError:
+                    ops.append((name, "CryptoError"))
+                    probes["rejected:seal"] = probes.get("rejected:seal", 0) + 1
+                    known_vector()
+            else:
+                n = (0, 1, 2, 5, 16, 19, 20, 21, 24, 25, 36, 37, 100, 1200, MAX - 1, MAX, MAX + 1, MAX + 41, 2 * MAX,
+                     65535)[c.choose(20)]
+                off = (0, 1, 2, 5, 9, 18, n - 21, n - 20, n - 19, n - 4, n, n + 1, MAX - 5, MAX - 4, MAX - 3, MAX,
+                       MAX + 36, 65531, (1 << 31) - 1, -1)[c.choose(20)]
+                packet = bytes((i * 11 + 3) & 0xFF for i in range(n))
+                name = "open(n=%d,off=%d)" % (n, off)
+                try:
+                    rx.decrypt_packet(packet, off, PNS[c.choose(len(PNS))])
+                    ops.append((name, "ok"))
+                except (CryptoError, ValueError, OverflowError):
+                    ops.append((name, "rejected"))
+                    probes["rejected:open"] = probes.get("rejected:open", 0) + 1
+                    known_vector()
+    except Violation as v:
+        out.violation = violation_dict(v)
+    out.summary = {"reason": "violation" if out.violation else "done", "steps": len(ops), "sim_time": 0.0, "fired": {},
+                   "probes": probes, "extra": {"crypto_ops": len(ops)}, "digest": stable_hash(ops),
+                   "states": [repr((int(suite), version))]}
+    out.choices = ch.dump()
+    out.nontrivial = True
+    out.signature = stable_hash((int(suite), version, ops))
+    out.sample = {"seed": seed, "variant": "crypto", "suite": int(suite), "version": version, "ops": ops[:14]}
+    return out
+
+
 def run_one(seed, tier="quick", variant=None, replay=None):
     variant = variant or "network"
     if bootstrap._loaded and bootstrap._loaded.get("flavour") != "asan":
@@ -387,8 +504,8 @@ def run_one(seed, tier="quick", variant=None, replay=None):
     install_contracts()
     sanitizer_reports()  # discard anything that predates this run
     del BREACHES[:]
-    if variant == "buffer":
-        out = run_buffer(seed, replay)
+    if variant in ("buffer", "crypto"):
+        out = run_buffer(seed, replay) if variant == "buffer" else run_crypto(seed, replay)
         verdict(out)
         return out
     holder = {}
